@@ -37,6 +37,9 @@ WToolUnzck(zckStatus, status, outEq) == ((zckStatus = 0 /\ status = 0) => outEq)
 
 \* C12: under an injected I/O fault only "exit 0 => complete correct output" is demanded
 WToolUnzckFaulty(status, outEq) == (status = 0 => outEq) /\ UNCHANGED wvars
+\* the same for any tool run (zck with a dictionary or split string, unzck --header / --dict, ...): outOk = the
+\* file the tool was asked to produce exists and is exactly what a fault-free run produces
+WToolFaulty(status, outOk) == (status = 0 => outOk) /\ UNCHANGED wvars
 
 \* ---------------------------------------------------------------- C16
 \* A finished run: cfg and content identify what was written, seg how; file = digest of the produced
